@@ -27,6 +27,14 @@ def Tok.invalid (t : Tok) : Bool := t.r == runeError && t.bytes.length == 1
 
 def isCont (b : UInt8) : Bool := 0x80 ≤ b.toNat && b.toNat ≤ 0xBF
 
+/-- second byte of a three-byte form: `acceptRanges` of Go (`E0` needs `A0..BF`, `ED` needs `80..9F`) -/
+def accept3 (x : Nat) (b1 : UInt8) : Bool :=
+  decide ((if x = 0xE0 then 0xA0 else 0x80) ≤ b1.toNat) && decide (b1.toNat ≤ (if x = 0xED then 0x9F else 0xBF))
+
+/-- second byte of a four-byte form (`F0` needs `90..BF`, `F4` needs `80..8F`) -/
+def accept4 (x : Nat) (b1 : UInt8) : Bool :=
+  decide ((if x = 0xF0 then 0x90 else 0x80) ≤ b1.toNat) && decide (b1.toNat ≤ (if x = 0xF4 then 0x8F else 0xBF))
+
 /-- `utf8.DecodeRuneInString` on a non-empty string `b0 :: rest` resp. the empty string. -/
 def decodeRune : List UInt8 → Tok
   | [] => ⟨runeError, []⟩
@@ -42,18 +50,14 @@ def decodeRune : List UInt8 → Tok
     else if x < 0xF0 then
       match rest with
       | b1 :: b2 :: _ =>
-        let lo := if x = 0xE0 then 0xA0 else 0x80
-        let hi := if x = 0xED then 0x9F else 0xBF
-        if lo ≤ b1.toNat && b1.toNat ≤ hi then
+        if accept3 x b1 then
           if isCont b2 then ⟨(x % 16) * 4096 + (b1.toNat % 64) * 64 + b2.toNat % 64, [b0, b1, b2]⟩ else inv
         else inv
       | _ => inv
     else if x < 0xF5 then
       match rest with
       | b1 :: b2 :: b3 :: _ =>
-        let lo := if x = 0xF0 then 0x90 else 0x80
-        let hi := if x = 0xF4 then 0x8F else 0xBF
-        if lo ≤ b1.toNat && b1.toNat ≤ hi then
+        if accept4 x b1 then
           if isCont b2 then
             if isCont b3 then
               ⟨(x % 8) * 262144 + (b1.toNat % 64) * 4096 + (b2.toNat % 64) * 64 + b3.toNat % 64, [b0, b1, b2, b3]⟩
@@ -201,6 +205,45 @@ decreasing_by
   simp only [List.length_drop, List.length_cons]
   omega
 
+/-- a validly decoded rune is decoded again from its own bytes, whatever follows (UTF-8 is self-delimiting) -/
+theorem decodeRune_self (b : UInt8) (bs rest : List UInt8) (h : (decodeRune (b :: bs)).invalid = false) :
+    decodeRune ((decodeRune (b :: bs)).bytes ++ rest) = decodeRune (b :: bs) := by
+  by_cases h1 : b.toNat < 0x80
+  · simp [decodeRune, h1]
+  by_cases h2 : b.toNat < 0xC2
+  · exfalso; simp [decodeRune, h1, h2, Tok.invalid] at h
+  by_cases h3 : b.toNat < 0xE0
+  · cases bs with
+    | nil => exfalso; simp [decodeRune, h1, h2, h3, Tok.invalid] at h
+    | cons b1 tl =>
+      by_cases hc : isCont b1 = true
+      · simp [decodeRune, h1, h2, h3, hc]
+      · exfalso; simp [decodeRune, h1, h2, h3, hc, Tok.invalid] at h
+  by_cases h4 : b.toNat < 0xF0
+  · match bs with
+    | [] => exfalso; simp [decodeRune, h1, h2, h3, h4, Tok.invalid] at h
+    | [_] => exfalso; simp [decodeRune, h1, h2, h3, h4, Tok.invalid] at h
+    | b1 :: b2 :: tl =>
+      by_cases ha : accept3 b.toNat b1 = true
+      · by_cases hc : isCont b2 = true
+        · simp [decodeRune, h1, h2, h3, h4, ha, hc]
+        · exfalso; simp [decodeRune, h1, h2, h3, h4, ha, hc, Tok.invalid] at h
+      · exfalso; simp [decodeRune, h1, h2, h3, h4, ha, Tok.invalid] at h
+  by_cases h5 : b.toNat < 0xF5
+  · match bs with
+    | [] => exfalso; simp [decodeRune, h1, h2, h3, h4, h5, Tok.invalid] at h
+    | [_] => exfalso; simp [decodeRune, h1, h2, h3, h4, h5, Tok.invalid] at h
+    | [_, _] => exfalso; simp [decodeRune, h1, h2, h3, h4, h5, Tok.invalid] at h
+    | b1 :: b2 :: b3 :: tl =>
+      by_cases ha : accept4 b.toNat b1 = true
+      · by_cases hc : isCont b2 = true
+        · by_cases hd : isCont b3 = true
+          · simp [decodeRune, h1, h2, h3, h4, h5, ha, hc, hd]
+          · exfalso; simp [decodeRune, h1, h2, h3, h4, h5, ha, hc, hd, Tok.invalid] at h
+        · exfalso; simp [decodeRune, h1, h2, h3, h4, h5, ha, hc, Tok.invalid] at h
+      · exfalso; simp [decodeRune, h1, h2, h3, h4, h5, ha, Tok.invalid] at h
+  · exfalso; simp [decodeRune, h1, h2, h3, h4, h5, Tok.invalid] at h
+
 /-- ASCII runes are single bytes, all other tokens consist of bytes `≥ 0x80` (so an ASCII byte of the text is
 always a token of its own, whatever surrounds it). -/
 def Tok.wf (t : Tok) : Prop :=
@@ -215,22 +258,74 @@ theorem Tok.wf_ascii (b : UInt8) : Tok.wf ⟨b.toNat, [b]⟩ := by
 theorem Tok.wf_high (r : Nat) (bytes : List UInt8) (h1 : 128 ≤ r) (h2 : ∀ b ∈ bytes, 128 ≤ b.toNat) : Tok.wf ⟨r, bytes⟩ :=
   ⟨fun h => by simp only at h; omega, fun _ => h2⟩
 
+theorem accept3_lo {x : Nat} {b1 : UInt8} (h : accept3 x b1 = true) :
+    (0x80 ≤ b1.toNat ∧ b1.toNat ≤ 0xBF) ∧ (x = 0xE0 → 0xA0 ≤ b1.toNat) := by
+  simp only [accept3, Bool.and_eq_true, decide_eq_true_eq] at h
+  refine ⟨⟨?_, ?_⟩, ?_⟩
+  · have := h.1; split at this <;> omega
+  · have := h.2; split at this <;> omega
+  · intro hx; have := h.1; simp only [hx, if_true] at this; exact this
+
+theorem accept4_lo {x : Nat} {b1 : UInt8} (h : accept4 x b1 = true) :
+    (0x80 ≤ b1.toNat ∧ b1.toNat ≤ 0xBF) ∧ (x = 0xF0 → 0x90 ≤ b1.toNat) := by
+  simp only [accept4, Bool.and_eq_true, decide_eq_true_eq] at h
+  refine ⟨⟨?_, ?_⟩, ?_⟩
+  · have := h.1; split at this <;> omega
+  · have := h.2; split at this <;> omega
+  · intro hx; have := h.1; simp only [hx, if_true] at this; exact this
+
 theorem decodeRune_wf (b : UInt8) (rest : List UInt8) : (decodeRune (b :: rest)).wf := by
-  unfold decodeRune
-  simp only
-  have hb := b.toNat_lt
-  split
-  · exact Tok.wf_ascii b
-  · rename_i h80
-    have inv : Tok.wf ⟨runeError, [b]⟩ := Tok.wf_high _ _ (by simp [runeError]) (by simp; omega)
-    repeat' split
-    all_goals first
-      | exact inv
-      | (apply Tok.wf_high
-         · simp only [isCont, Bool.and_eq_true, decide_eq_true_eq] at *; omega
-         · simp only [isCont, Bool.and_eq_true, decide_eq_true_eq, List.mem_cons, List.not_mem_nil, or_false,
-             forall_eq_or_imp, forall_eq] at *
-           omega)
+  have inv : 128 ≤ b.toNat → Tok.wf ⟨runeError, [b]⟩ := fun hb =>
+    Tok.wf_high _ _ (by simp [runeError]) (by simp; omega)
+  by_cases h1 : b.toNat < 0x80
+  · simp only [decodeRune, h1, if_true]; exact Tok.wf_ascii b
+  by_cases h2 : b.toNat < 0xC2
+  · simp only [decodeRune, h1, h2, if_true, if_false]; exact inv (by omega)
+  by_cases h3 : b.toNat < 0xE0
+  · cases rest with
+    | nil => simp only [decodeRune, h1, h2, h3, if_true, if_false]; exact inv (by omega)
+    | cons b1 tl =>
+      by_cases hc : isCont b1 = true
+      · simp only [decodeRune, h1, h2, h3, hc, if_true, if_false]
+        simp only [isCont, Bool.and_eq_true, decide_eq_true_eq] at hc
+        exact Tok.wf_high _ _ (by omega) (by simp; omega)
+      · simp only [decodeRune, h1, h2, h3, hc, if_true, if_false]; exact inv (by omega)
+  by_cases h4 : b.toNat < 0xF0
+  · match rest with
+    | [] => simp only [decodeRune, h1, h2, h3, h4, if_true, if_false]; exact inv (by omega)
+    | [_] => simp only [decodeRune, h1, h2, h3, h4, if_true, if_false]; exact inv (by omega)
+    | b1 :: b2 :: tl =>
+      by_cases ha : accept3 b.toNat b1 = true
+      · by_cases hc : isCont b2 = true
+        · simp only [decodeRune, h1, h2, h3, h4, ha, hc, if_true, if_false]
+          have ⟨a1, a2⟩ := accept3_lo ha
+          simp only [isCont, Bool.and_eq_true, decide_eq_true_eq] at hc
+          refine Tok.wf_high _ _ ?_ (by simp; omega)
+          by_cases hx : b.toNat = 0xE0
+          · have := a2 hx; omega
+          · omega
+        · simp only [decodeRune, h1, h2, h3, h4, ha, hc, if_true, if_false]; exact inv (by omega)
+      · simp only [decodeRune, h1, h2, h3, h4, ha, if_true, if_false]; exact inv (by omega)
+  by_cases h5 : b.toNat < 0xF5
+  · match rest with
+    | [] => simp only [decodeRune, h1, h2, h3, h4, h5, if_true, if_false]; exact inv (by omega)
+    | [_] => simp only [decodeRune, h1, h2, h3, h4, h5, if_true, if_false]; exact inv (by omega)
+    | [_, _] => simp only [decodeRune, h1, h2, h3, h4, h5, if_true, if_false]; exact inv (by omega)
+    | b1 :: b2 :: b3 :: tl =>
+      by_cases ha : accept4 b.toNat b1 = true
+      · by_cases hc : isCont b2 = true
+        · by_cases hd : isCont b3 = true
+          · simp only [decodeRune, h1, h2, h3, h4, h5, ha, hc, hd, if_true, if_false]
+            have ⟨a1, a2⟩ := accept4_lo ha
+            simp only [isCont, Bool.and_eq_true, decide_eq_true_eq] at hc hd
+            refine Tok.wf_high _ _ ?_ (by simp; omega)
+            by_cases hx : b.toNat = 0xF0
+            · have := a2 hx; omega
+            · omega
+          · simp only [decodeRune, h1, h2, h3, h4, h5, ha, hc, hd, if_true, if_false]; exact inv (by omega)
+        · simp only [decodeRune, h1, h2, h3, h4, h5, ha, hc, if_true, if_false]; exact inv (by omega)
+      · simp only [decodeRune, h1, h2, h3, h4, h5, ha, if_true, if_false]; exact inv (by omega)
+  · simp only [decodeRune, h1, h2, h3, h4, h5, if_true, if_false]; exact inv (by omega)
 
 theorem decodeAll_wf (bs : List UInt8) : ∀ t ∈ decodeAll bs, t.wf := by
   match bs with
@@ -246,5 +341,57 @@ decreasing_by
   have := decodeRune_width_pos b rest
   simp only [List.length_drop, List.length_cons]
   omega
+
+/-- the token is what `decodeRune` returns on its own bytes, whatever follows them, and it is not empty -/
+def Tok.canon (t : Tok) : Prop := (∀ rest, decodeRune (t.bytes ++ rest) = t) ∧ 1 ≤ t.bytes.length
+
+theorem decodeAll_canon (bs : List UInt8) : ∀ t ∈ decodeAll bs, t.invalid = false → t.canon := by
+  match bs with
+  | [] => simp
+  | b :: rest =>
+    rw [decodeAll_cons]
+    intro t ht hv
+    rcases List.mem_cons.mp ht with h | h
+    · subst h
+      exact ⟨fun r => decodeRune_self b rest r hv, decodeRune_width_pos b rest⟩
+    · exact decodeAll_canon _ t h hv
+termination_by bs.length
+decreasing_by
+  have := decodeRune_width_pos b rest
+  simp only [List.length_drop, List.length_cons]
+  omega
+
+/-- decoding the bytes of canonical tokens gives the tokens back, whatever follows -/
+theorem decodeAll_flat_append (c : List Tok) (hc : ∀ t ∈ c, t.canon) (rest : List UInt8) :
+    decodeAll (flat c ++ rest) = c ++ decodeAll rest := by
+  induction c with
+  | nil => simp
+  | cons t ts ih =>
+    have ht := hc t List.mem_cons_self
+    obtain ⟨b, bs, hb⟩ : ∃ b bs, t.bytes = b :: bs := by
+      cases h : t.bytes with
+      | nil => have := ht.2; rw [h] at this; simp at this
+      | cons b bs => exact ⟨b, bs, rfl⟩
+    have e : flat (t :: ts) ++ rest = b :: (bs ++ (flat ts ++ rest)) := by simp [hb]
+    rw [e, decodeAll_cons]
+    have e2 : b :: (bs ++ (flat ts ++ rest)) = t.bytes ++ (flat ts ++ rest) := by simp [hb]
+    rw [e2, ht.1]
+    simp only [List.drop_left, List.cons_append]
+    rw [ih (fun x hx => hc x (List.mem_cons_of_mem _ hx))]
+
+theorem decodeAll_flat (c : List Tok) (hc : ∀ t ∈ c, t.canon) : decodeAll (flat c) = c := by
+  have := decodeAll_flat_append c hc []
+  simpa using this
+
+/-- the token of an ASCII byte -/
+def tk (r : Nat) : Tok := ⟨r, [UInt8.ofNat r]⟩
+
+theorem tk_canon {r : Nat} (h : r < 128) : (tk r).canon := by
+  refine ⟨fun rest => ?_, by simp [tk]⟩
+  have e : (UInt8.ofNat r).toNat = r := by simp [UInt8.toNat_ofNat']; omega
+  simp [tk, decodeRune, e, h]
+
+theorem tk_valid {r : Nat} (h : r < 128) : (tk r).invalid = false := by
+  simp [tk, Tok.invalid, runeError]; omega
 
 end Knut.Utf8
